@@ -1756,6 +1756,11 @@ class Parallel(Logger):
         if self._iterating:
             return True
 
+        # An error has been registered, possibly with no task in flight (e.g.
+        # raised by the iterator of tasks): the retrieval loop has to raise it.
+        if self._aborting:
+            return True
+
         # If some of the dispatched tasks are still being processed by the
         # workers, wait for the compute to finish before starting retrieval
         if self.n_completed_tasks < self.n_dispatched_tasks:
